@@ -59,12 +59,12 @@ pub fn lib_roundtrip_m(t: TC, vals: &[f32], mates: Option<u64>) -> Result<Vec<f3
 }
 
 pub fn strategy() -> BoxedStrategy<Case> {
-    (sup_transfer(), 0u8..8, any::<u64>(), 1usize..=768, prop::bool::weighted(0.25))
+    (sup_transfer(), 0u8..9, any::<u64>(), 1usize..=768, prop::bool::weighted(0.25))
         .prop_map(|(t, stratum, seed, n, mates)| Case {
             t,
             dir: Dir::ToLinear,
-            vals: Vals::Seeded { stratum, seed, n: if stratum % 8 == 6 { n.min(96) } else { n } },
-            mates: if mates { Some(seed) } else { None },
+            vals: Vals::Seeded { stratum, seed, n: if stratum % 9 == 6 { n.min(96) } else { n } },
+            mates: if mates && stratum % 9 != 8 { Some(seed) } else { None },
         })
         .boxed()
 }
@@ -117,7 +117,7 @@ pub fn check_named(prop: &str, case: &Case, st: &mut Stats) -> Result<(), Violat
     st.comparisons += vals.len() as u64;
     st.class(&format!("curve_{}", tc_name(t)), 1);
     if let Vals::Seeded { stratum, .. } = case.vals {
-        st.class(&format!("stratum_{}", stratum % 8), 1);
+        st.class(&format!("stratum_{}", stratum % 9), 1);
     }
     if nontrivial {
         let bits: Vec<u32> = vals.iter().map(|v| v.to_bits()).collect();
